@@ -695,6 +695,34 @@ def check(tier):
             rep.violation({"broken": ["correspondence LedgerNestedModel.nstep vs Array<Node> (cpp/drv_ledger_nested.cpp) differs: the ownership model reports an error or other contents where the implementation meets the specification"],
                            "first_mismatch": {"case": small, "impl": c0[1][:1500], "model": c0[2][:1500]}, "searched_cases": len(ccases)}, no_input=True)
 
+    # correspondence of the hash-table ownership model (coq/HtabLedgerModel.v, extracted) with HArray / HList:
+    # live allocations and what the pool owns after every operation (tools/props/htabledger.py)
+    import htabledger
+    hrng = random.Random(rng.randrange(1 << 30))
+    hr = htabledger.correspond(hrng, tier, boost)
+    hcorr = {"cases": hr.get("n", 0), "mismatches": hr.get("n_mismatch", len(hr.get("mismatches", []))), "distribution": hr.get("distribution", {}),
+             "samples": hr.get("samples", [])}
+    total += hr.get("n", 0)
+    model_only = []
+    for m in hr.get("mismatches", []):
+        if "broken" in m:
+            rep.violation({"broken": [m["broken"]], "log": (m.get("log") or "")[-3000:]}, no_input=True)
+            continue
+        what = m.get("what") or ""
+        direct = ("released an unknown" in what) or ("allocations live but the pool owns" in what) or ("after destroying the pool" in what) or m.get("impl", "").startswith("CRASH")
+        if direct:
+            found_input = True
+            rep.violation({"component": "ledger/htabledger", "family": "htabledger", "case": m["case"], "model_case": m.get("model_case"),
+                           "format": "<kind 0 HArray<String,String> | 1 HArray<String,unsigned> | 2 HList<String>> <tables> <op;op;...>  (cpp/drv_htabledger.cpp)",
+                           "observed_impl": m.get("impl"), "model": m.get("model"), "oracle": "fails: " + what, "original_case": m.get("original_case")})
+        else:
+            model_only.append(m)
+    if model_only and not found_input:
+        m = model_only[0]
+        rep.violation({"broken": ["correspondence HtabLedgerModel.lstep vs HArray / HList (cpp/drv_htabledger.cpp) differs: " + (m.get("what") or "")],
+                       "first_mismatch": {"case": m["case"], "model_case": m.get("model_case"), "impl": m.get("impl"), "model": m.get("model")},
+                       "searched_cases": hr.get("n", 0)}, no_input=True)
+
     if not found_input and not proof_ok:
         rep.violation({"broken": ["coq/Properties_C16.vo no longer builds or is not closed (ledger theorems c16_* not re-established)"],
                        "coq_log": st["log"][-3000:], "searched_cases": total}, no_input=True)
@@ -709,12 +737,14 @@ def check(tier):
         "input_distribution": dist,
         "per_family": per_family,
         "nested_model_correspondence": corr,
+        "htab_model_correspondence": hcorr,
         "allocation_counts_are": "diagnostic only (how many blocks a container holds is policy, not contract)",
         "oracle_failures": sum(v["verdict_failures"] for v in per_family.values()),
     })
     rep.assumptions = [
         "the theorems are about (1) the block-heap model coq/SeqModel.v (Array<int>, String, StringStream; the model of the C14 theorems) with the observers of coq/LedgerModel.v (2) the ownership model of Value trees coq/LedgerValueModel.v, (3) nested Array<Node> coq/LedgerNestedModel.v and (4) the storage / key / value ownership model of the hash table coq/HtabLedgerModel.v; Array<String> elements, tag records, expression lists and the JSON / template parsers' failure paths are NOT modelled: for them C16 rests on the runtime ledger + sanitizers reported here (finite search)",
         "nested-array model: tied to the C++ by the correspondence run reported under nested_model_correspondence (contents after every step: implementation = extracted ownership model = extracted value-semantics specification; finite); that the model's contents equal the specification for ALL histories is tested, not proved; d strictly inside s (assigning / appending a container into one of its own parts) is outside the domain",
+        "hash-table ownership model: tied to the C++ by the correspondence run reported under htab_model_correspondence (after every operation: live allocations = ids the model owns, tables with storage / keys / values owning a block equal the model's, no bad release, nothing live that the pool does not own; 0 live after the pool is destroyed); the model's growth flag is taken from what the C++ did (capacity changed), the copy-of-empty flag from the value type; finite",
         "Value model: targets are value positions (variable, array element, value of an item); moving a value into one of its own members and Merge / append-of-a-value between a value and its own member or ancestor are outside the domain (no-ops in the model, skipped by the drivers); Value::Compress is the model's one-level OCompress applied at the node and then at every container child",
         "whether a destructor really runs, and use after release, are decided by the C++ runtime: covered by ASan / LSan on the generated cases, not by the theorems",
         "the ledger sees the library's allocator seam (Memory::Allocate / Deallocate); blocks adopted from or detached to the caller are allocated / released by the driver through the same seam",
@@ -727,6 +757,18 @@ def replay(path):
     d = json.load(open(path))
     case = d.get("case")
     fam = d.get("family")
+    if case and fam == "htabledger":
+        import htabledger
+        exe, msg = htabledger.build()
+        mexe, mmsg = vlib.build_ocaml("htabledger")
+        if exe is None or mexe is None:
+            print("driver or extracted model does not build:", (msg or mmsg or "")[-2000:])
+            return 1
+        tk = case.split(" ")
+        ops = [] if tk[2] == "-" else [tuple([o.split(":")[0]] + [int(x) for x in o.split(":")[1:]]) for o in tk[2].split(";")]
+        r = htabledger.run_cases(exe, mexe, [(int(tk[0]), int(tk[1]), ops)])[0]
+        print("family: htabledger\ncase:", case, "\nimpl:", r[3], "\nmodel:", r[4], "\nverdict:", r[5] or "agree, nothing live at the end")
+        return 0 if r[5] is None else 1
     if not case or fam not in DRIVERS:
         print("replay names a broken obligation, not an input:", d.get("broken"))
         return 1
